@@ -443,6 +443,12 @@ fn c12_mixed_version_chain() {
         cases += 1;
         let inp = format!("{} versions {:x?}", coin, versions);
         cmp_delivery(suite, "C12:auxpow_decision_depends_on_the_blocks_own_version_only", &inp, fetch_all(&d, coin, versions.len() as u64, false), &hashes(&chain));
+        // the same chain with --verify from height 1: a block with an AuxPoW section verifies exactly like one without
+        { cases += 1;
+          let hs: Vec<u64> = (1..versions.len() as u64).collect();
+          let r = fetch(d.path(), coin, 1, None, true, &hs);
+          let ok = matches!(&r, Ok(v) if v.iter().all(|x| matches!(x, Ok(Some(_)))));
+          check(ok, suite, "C12:derived_outputs_unaffected_by_the_section", &format!("{} --verify --start 1", inp), &format!("{:?}", r.as_ref().map(|v| v.iter().map(|x| x.as_ref().map(|o| o.is_some()).map_err(|e| e.clone())).collect::<Vec<_>>())), "every block accepted"); }
         match fetch_blocks(d.path(), coin, 0, versions.len() as u64 - 1, false) {
             Err(m) => fail(suite, "C12:auxpow_decision_depends_on_the_blocks_own_version_only", &inp, &m, "all blocks parsed"),
             Ok(bs) => for (h, (got, want)) in bs.iter().zip(chain.iter()).enumerate() {
